@@ -146,6 +146,16 @@ func (n *vpNext) BlockResults(ctx context.Context, height *int64) (*ctypes.Resul
 			cp := *res[0]
 			cp.Data = append(append([]byte{}, cp.Data...), vp.Byte("forged-data"))
 			res = append([]*abci.ResponseDeliverTx{&cp}, res[1:]...)
+		case 6: // one result's gas used changed
+			cp := *res[0]
+			cp.GasUsed = vp.Int64("forged-gas-used")
+			vp.Assume(cp.GasUsed != res[0].GasUsed)
+			res = append([]*abci.ResponseDeliverTx{&cp}, res[1:]...)
+		case 7: // one result's gas wanted changed
+			cp := *res[0]
+			cp.GasWanted = vp.Int64("forged-gas-wanted")
+			vp.Assume(cp.GasWanted != res[0].GasWanted)
+			res = append([]*abci.ResponseDeliverTx{&cp}, res[1:]...)
 		}
 	}
 	return &ctypes.ResultBlockResults{Height: h, TxsResults: res,
@@ -216,7 +226,7 @@ func vpC20(method int) {
 	case 2:
 		if !honest {
 			tamper = 3
-			next.sub = vp.Choice("tamper-results", 6)
+			next.sub = vp.Choice("tamper-results", 8)
 		}
 		next.tamper = tamper
 		_, err := cl.BlockResults(ctx, &h)
